@@ -2,6 +2,7 @@ package main
 
 import (
 	"bytes"
+	"context"
 	"fmt"
 
 	"github.com/muktihari/fit/decoder"
@@ -114,6 +115,21 @@ func c01(args []string) {
 		}
 	}
 	odd := oddAcceptedInputs(r)
+	// no destination at all: an error from every entry point, never a panic
+	for k, call := range []func() error{
+		func() error { return encoder.New(nil).Encode(&proto.FIT{Messages: []proto.Message{fileIdMesg(r)}}) },
+		func() error {
+			return encoder.New(nil).EncodeWithContext(context.Background(), &proto.FIT{Messages: []proto.Message{fileIdMesg(r)}})
+		},
+		func() error { _, err := encoder.NewStream(nil); return err },
+		func() error { _, err := encoder.NewStream(&bytes.Buffer{}); return err }, // neither io.WriterAt nor io.WriteSeeker
+	} {
+		err, p := func() (err error, p any) { defer func() { p = recover() }(); return call(), nil }()
+		stat("nil_or_unsuitable_writer_calls", 1)
+		if p != nil || err == nil {
+			emitJSON("FAIL", "", map[string]any{"kind": "encoder-without-usable-destination", "call": k, "panic": fmt.Sprint(p), "err": fmt.Sprint(err)})
+		}
+	}
 	for i := -len(odd); i < n; i++ {
 		wellFormed := r.chance(5, 6)
 		var ec encCfg
@@ -130,6 +146,14 @@ func c01(args []string) {
 				if dep, ok := withoutDeclarations(files[0]); ok {
 					files = append(files, dep)
 					dependent = true
+					if r.chance(1, 2) { // ... and the first file is itself rejected after its declarations were seen (a value of the wrong type at its end)
+						bad := proto.Message{Num: mesgnum.Record}
+						f := factory.CreateField(mesgnum.Record, fieldnum.RecordHeartRate)
+						f.Value = proto.Uint16(300)
+						bad.Fields = append(bad.Fields, f)
+						files[0].msgs = append(cloneMessages(files[0].msgs), bad)
+						stat("chain_first_file_rejected_after_declarations", 1)
+					}
 					stat("chain_with_undeclared_developer_fields", 1)
 				}
 			}
@@ -145,6 +169,9 @@ func c01(args []string) {
 		}
 		emit("ENC", fmt.Sprintf("(%s, %s, %s)", ec.coq(), coqEFiles(files), obs))
 		if err != nil {
+			if len(files) > 1 { // the same encoder goes on after a rejected file: every later file is encoded as by a fresh encoder
+				c01EncodeEach(ec, files)
+			}
 			continue
 		}
 		stat("encode_ok", 1)
@@ -218,6 +245,34 @@ func c01(args []string) {
 			emit("SAMPLE", fmt.Sprintf("cfg {%s} chain %d, %d messages in file 0 -> %d bytes", ec.coq(), len(files), len(files[0].msgs), len(b)))
 		}
 	}
+}
+
+// c01EncodeEach: one encoder, one plain buffer, every file of the chain in turn, going on after a rejected one.  Observation per
+// file: the bytes that call appended, or the error class.  A rejected call leaves nothing behind in the encoder.
+func c01EncodeEach(c encCfg, files []encFile) {
+	var buf bytes.Buffer
+	enc := encoder.New(&buf, c.options()...)
+	var obs []string
+	for k, f := range files {
+		before := buf.Len()
+		fit := &proto.FIT{FileHeader: proto.FileHeader{Size: f.hsize, ProtocolVersion: f.proto, ProfileVersion: f.profile}, Messages: cloneMessages(f.msgs)}
+		var err error
+		if k%2 == 1 {
+			err = enc.EncodeWithContext(context.Background(), fit)
+		} else {
+			err = enc.Encode(fit)
+		}
+		if err != nil {
+			if buf.Len() != before {
+				emitJSON("FAIL", "", map[string]any{"kind": "rejected-file-left-bytes-in-the-destination", "file": k, "bytes": buf.Len() - before, "err": err.Error(), "cfg": c.coq()})
+			}
+			obs = append(obs, fmt.Sprintf("EErr %d", encErrClass(err)))
+			continue
+		}
+		obs = append(obs, fmt.Sprintf("EOk %s []", coqBytes(buf.Bytes()[before:])))
+	}
+	emit("ENCE", fmt.Sprintf("(%s, %s, %s)", c.coq(), coqEFiles(files), coqList(obs)))
+	stat("encoder_goes_on_after_rejected_file", 1)
 }
 
 // withoutDeclarations: the file without its developer_data_id / field_description messages (ok when it uses developer fields).
@@ -300,6 +355,12 @@ func oddAcceptedInputs(r *rng) []oddInput {
 	var out []oddInput
 	strs := [][]string{{"left", "", "right"}, {"", "a"}, {"a", ""}, {""}, {"", ""}, {"a\x00b"}, {"a\x00", "b"}, {"\x00"}, {"é", "", "ü"}}
 	scalars := []string{"", "a\x00b", "a\x00", "\x00", "\x00\x00a"}
+	// a file without messages (alone, and after a good file): rejected, nothing of it written
+	for _, hs := range []byte{14, 12} {
+		ec := encCfg{headerSize: hs, protoVer: proto.V2}
+		out = append(out, oddInput{ec, []encFile{{hsize: hs}}})
+		out = append(out, oddInput{ec, []encFile{{hsize: hs, msgs: []proto.Message{fileIdMesg(r)}}, {hsize: hs}}})
+	}
 	for _, big := range []bool{false, true} {
 		for _, comp := range []bool{false, true} {
 			ec := encCfg{bigEndian: big, headerSize: 14, protoVer: proto.V2, localTypes: 2}
